@@ -18,7 +18,7 @@ package masks
 //@
 //@ func (*ResponseFilter).FilterClone(msg) (res)
 //@   requires recv != nil
-//@   requires [mask-valid] maskFits(recv.fields, msg)     // whoever builds the filter from a request must have validated the mask
+//@   requires [mask-valid@C06] maskFits(recv.fields, msg)     // whoever builds the filter from a request must have validated the mask
 //@   ensures [nil-mask] old(recv.fields) == nil ==> equalmsg(res, msg)
 //@   ensures [nil-msg] isnil(msg) ==> isnil(res)
 //@   ensures [clone] old(recv.fields) != nil && !isnil(msg) ==> fresh(res) && sametype(res, msg) && !isnil(res)
@@ -29,7 +29,7 @@ package masks
 //@
 //@ func (*ResponseFilter).Filter(msg)
 //@   requires recv != nil
-//@   requires [mask-valid] maskFits(recv.fields, msg)
+//@   requires [mask-valid@C06] maskFits(recv.fields, msg)
 //@   ensures [nil-mask] old(recv.fields) == nil ==> msgval(msg) == old(msgval(msg))
 //@   ensures [projection] old(recv.fields) != nil && !isnil(msg) && len(old(recv.fields.Paths)) > 0 ==> msgval(msg) == filtered(old(msgval(msg)), old(recv.fields.Paths))
 //@   ensures [empty-mask] old(recv.fields) != nil && !isnil(msg) && len(old(recv.fields.Paths)) == 0 ==> msgval(msg) == emptymsg(msg)
